@@ -6,7 +6,7 @@ from .. import common, build, lean, check, script, wiregen
 
 MODULE = "Dbus.Props.C12"
 THEOREMS = ["set_reads_back", "set_frame", "delete_removes", "delete_frame", "removeUnknown_frame", "removeUnknown_all_known",
-            "edit_leaves_rest", "edit_roundtrip", "padding_exact"]
+            "edit_leaves_rest", "edit_roundtrip", "padding_exact", "setSerial_keeps_valid", "setSerial_roundtrip"]
 
 
 def val_for(rng, code, k):
